@@ -47,7 +47,7 @@ const UN: &[u32] = &[3, 6];
 fn gen_prog(t: &mut Tape, ctx: &Ctx) -> Prog {
     let nin = t.range(0, 3);
     let input_labels: Vec<u32> = (0..nin).map(|_| t.choice(2) as u32).collect();
-    let nsteps = t.range(0, if ctx.tier == Tier::Quick { 6 } else { 10 });
+    let nsteps = t.range(0, ctx.mlen(if ctx.tier == Tier::Quick { 6 } else { 10 }));
     let mut nvars = nin;
     let mut steps = vec![];
     for _ in 0..nsteps {
